@@ -92,3 +92,29 @@ func (x *Exec) noteAssume(a string) {
 	}
 	x.Assumes = append(x.Assumes, a)
 }
+
+// inJSONMarshal models encoding/json.Marshal(v) for v of dynamic type string by running
+// the real encoding/json.appendString[string](nil, v, true) from the standard library's
+// SSA (what stringEncoder does with escapeHTML set); other dynamic types are outside
+// the encodable fragment.
+func inJSONMarshal(x *Exec, s *State, a []Value, _ *ssa.Call) []Outcome {
+	iv, ok := a[0].(Iface)
+	if !ok || iv.T == nil {
+		unsupported("json.Marshal of nil/unknown value")
+	}
+	if !isString(iv.T) {
+		unsupported("json.Marshal of dynamic type %s (only string data is encoded by the engine)", iv.T)
+	}
+	fn := x.W.jsonAppendString()
+	if fn == nil {
+		unsupported("encoding/json.appendString[string] not found in the SSA program")
+	}
+	arg := iv.V
+	return []Outcome{{Cond: smt.True, Val: nativeCall{&NativeDriver{Kind: "json.Marshal", Data: fn, Resume: func(x *Exec, s *State, f *Frame) {
+		if !f.NatHasRet {
+			x.callValue(s, fn, []Value{Slice{}, arg, smt.True})
+			return
+		}
+		x.popFrame(s, Tuple{f.NatRet, Iface{}})
+	}}}}}
+}
